@@ -15,7 +15,10 @@ def jobs(tier):
         js += split(j, "variant", 7) if j["params"]["n"] >= 2 else [j]
     strata2 = [dict(name="v2000/S-shape", ns=[2, 3] + ([4] if t else []), pin={3: 3, 4: 6}, params=dict(K_m=1, K_r=1, crlf=False)),
                dict(name="v2000-crlf/S-shape", ns=[2, 3], pin={3: 3}, params=dict(K_m=1, K_r=0, crlf=True))]
-    strata2.append(dict(name="v2000-codes/DT", ns=[2, 3], pin={3: 3}, params=dict(K_m=0, K_r=1, alphabet=["C", "D"], codes=True)))
+    strata2.append(dict(name="v2000-codes/DT", ns=[2, 3] if t else [2], pin={3: 3}, params=dict(K_m=0, K_r=1, alphabet=["C", "D"], codes=True)))
+    if not t:
+        # 3 atoms, no bonds pinned away: C/D elements, charge codes on every atom, no labels
+        strata2.append(dict(name="v2000-codes/DT-unlabelled", ns=[3], pin={3: 3}, params=dict(K_m=0, K_r=0, alphabet=["C", "D"], codes=True, _pins={"e0_1": True})))
     js += shape_strata(M, "c06_v2000", tier, quick=strata2, thorough=strata2, max_seconds=ms)
     return js
 
